@@ -172,7 +172,7 @@ def is_const(e, value=...) -> bool:
 
 def call_name(call: ast.Call) -> str:
     """Last component of the callee expression ('remove_cand', 'append', 'choice')."""
-    f = call.func
+    f = getattr(call, "func", None)
     if isinstance(f, ast.Name):
         return f.id
     if isinstance(f, ast.Attribute):
